@@ -289,8 +289,8 @@ def obligations(tier, seed):
     shapes = [(S,) for S in R] + [(S, K) for S in R for K in R if (tier == "thorough" or (S, K) in ((2, 2), (2, 3), (3, 2)))]
     # site models (all parameters batched)
     for b in shapes:
-        add("C10.site.weibull[K=4,inv,mu,batch=%s]" % (b,), "C05", "scn_weibull", (4, b, True, True), (4, (), True, True), "mean_rate_is_mu" if False else None, b)
-        add("C10.site.invariant[batch=%s]" % (b,), "C05", "scn_invariant", (b, True), ((), True), None, b)
+        add("C10.site.weibull[K=4,inv,mu,batch=%s]" % (b,), "C05", "scn_weibull", (4, b, True, True), (4, (), True, True), "rates_value", b)
+        add("C10.site.invariant[batch=%s]" % (b,), "C05", "scn_invariant", (b, True), ((), True), "rates_value", b)
     # substitution models: q with every subset batched
     for b in shapes[:4]:
         for pb, fb in ((b, ()), ((), b), (b, b)):
